@@ -37,7 +37,7 @@ CLAIMED = {
          "connector runs through a relay that cuts the server-to-client stream after k octets (all / boundary + header + every 3rd), "
          "cuts the client-to-server stream, drops one whole reply frame, or swallows all replies, in synchronous, pipelined, "
          "fragmented and bundled modes; TLC (ClientTrace) judges every run; poll.loop through get_attribute.proxy under cuts and "
-         "stalled-then-late replies must fail, discard the connection, reconnect and return the values of its own requests.",
+         "stalled-then-late replies must fail, discard the connection, reconnect and return the values of its own requests.  spec/PollRun.tla is the polling driver (poll.run / poll.loop: back-off between its bounds, reset and cadence after a success); TLC checks its laws on every pattern of 1..7 poll outcomes and each pattern is replayed on the real driver over a virtual clock.",
          "5/C13", "a result counts as completely received when its reply frame was delivered in full; 0.6 s timeouts; relay closes both directions at a cut",
          "TLA+ fault contract; fault-injecting relay enumerating cut offsets / lost frames / stalls on the real client; runs validated by TLC trace spec"),
  "C09": ("model_checking",
